@@ -26,7 +26,8 @@ dyn     every (system, bath, construction path, RWA reference, time step) x EVER
                                    error vs exp(-i(w-Om)t - g(t)) (optical), vs
                                    exp(-i w_kl t - g_k - g_l^*) (inter-site), constant
                                    populations; must not increase with depth and must be
-                                   <= TOL at Dmax (Q, calibrated, see TOL_* below)
+                                   <= TOL at Dmax (Q, calibrated, admissible points
+                                   kappa <= KAPPA_MAX only, see TOL_* below)
 """
 import numpy
 
@@ -41,11 +42,19 @@ LEVEL = "model_checking"
 RTOL = 1e-10            # class R
 TAYLOR_ORDER = 4        # declared default of KTHierarchyPropagator.propagate(L=4)
 MONO_FLOOR = 1e-9       # below this the error sequence is rounding noise
-# class Q, relative to the largest initial element of the group.  Calibration on the
-# unchanged tree (thorough grid, see final report): optical worst 9.2e-4 (lam 60, Dmax 6),
-# 5.3e-4 (lam 30, Dmax 5); inter-site worst 6.3e-3.  Mutants move these to >= 0.1.
+# class Q: error at the deepest level, relative to the largest initial element of the group.
+# The truncation error of a depth-D hierarchy is governed by the dimensionless coupling
+#   kappa = sqrt(2 kB T * (sum of reorganisation energies of the baths acting on the
+#           element)) / (smallest bath relaxation rate involved)
+# (fluctuation amplitude over relaxation rate).  The "small at the deepest level" number is
+# only applied to ADMISSIBLE points kappa <= KAPPA_MAX (DESIGN 1.5); for larger kappa only
+# the monotone decrease is demanded (counted in the evidence).  Calibration on the unchanged
+# tree: optical worst 5.6e-4 (Dmax 5, kappa 1.05) / 9.2e-4 (Dmax 6, kappa 1.49); inter-site
+# worst 3.2e-3 (Dmax 5, kappa 1.49); smallest mutant effects 5e-2 (optical), 9e-2
+# (inter-site).
+KAPPA_MAX = 1.5
 TOL_OPTICAL = 5e-3
-TOL_INTERSITE = 3.5e-2
+TOL_INTERSITE = 1.75e-2
 TOL_POPULATION = 5e-3
 BATH_GUARD_RTOL = 1e-5  # library uses CODATA-2014 constants: 1e-6 relative allowed
 
@@ -215,6 +224,18 @@ def eval_dyn(case):
     amp = {g: float(numpy.max(numpy.abs(rho0[m]))) if m.any() else 0.0
            for g, m in groups.items()}
     errs = {g: [] for g in groups}
+    kappa = {g: 0.0 for g in groups}
+    for a in range(N):
+        for b in range(N):
+            if a == b or abs(rho0[a, b]) == 0.0:
+                continue
+            inv = [baths[x - 1] for x in (a, b) if x > 0]
+            kT = LS.kBT_int(inv[0]["T"])
+            lsum = sum(LS.to_int(x["reorg"]) for x in inv)
+            gmin = min(1.0 / float(x["cortime"]) for x in inv)
+            g = "optical" if (a == 0 or b == 0) else "intersite"
+            kappa[g] = max(kappa[g], float(numpy.sqrt(2.0 * kT * lsum) / gmin))
+    admissible = {g: kappa[g] <= KAPPA_MAX for g in groups}
     worst = {"trace": 0.0, "herm": 0.0, "closed": 0.0, "closed_ratio": 0.0}
     digest = []
     analytic_applies = (not coupled) and (not all_zero) and ht
@@ -313,7 +334,7 @@ def eval_dyn(case):
                     break
             # ... and small at the deepest level
             a = amp[g] if amp[g] > 0 else 1.0
-            if e[-1] > TOLS[g] * a + RTOL:
+            if admissible[g] and e[-1] > TOLS[g] * a + RTOL:
                 add("analytic/%s/not-converged" % g,
                     "state %s: error at depth %d is %.3g (initial amplitude %.3g), "
                     "tolerance %.3g" % (label, depths[-1], e[-1], a, TOLS[g] * a),
@@ -325,6 +346,7 @@ def eval_dyn(case):
     nontrivial = bool((superpos or (coupled and excited_pop)) and moved > 1e-6)
     info = {"sec": "dyn", "worst": worst, "errs": errs if analytic_applies else None,
             "amp": amp, "analytic": bool(analytic_applies), "skipped": analytic_skipped,
+            "kappa": kappa, "admissible": admissible,
             "label": label, "lam": lams, "sys": sysname, "dmax": depths[-1]}
     outcome = [sysname, case["energies"], lams, case["via"], case.get("rwa", "blocks"),
                case["dt"], label, _r(moved, 4), digest]
@@ -460,7 +482,7 @@ def run(run):
                 "initial states": "all N^2 members of the spanning set"},
         "tolerances": {"R": RTOL, "T": "2 x Taylor-%d bound + R" % TAYLOR_ORDER,
                        "Q_optical": TOL_OPTICAL, "Q_intersite": TOL_INTERSITE,
-                       "Q_population": TOL_POPULATION}}
+                       "Q_population": TOL_POPULATION, "Q_admissible_kappa_max": KAPPA_MAX}}
     ic = index_cases(run.tier)
     dc = dyn_cases(run.tier)
     run_grid(run, ic, eval_case, section="index")
@@ -471,6 +493,9 @@ def run(run):
     infos = run_grid(run, [dc[i] for i in order], eval_case, section="dyn", chunksize=1)
     w = {"trace": 0.0, "herm": 0.0, "closed": 0.0, "closed_ratio": 0.0}
     wa = {"optical": 0.0, "intersite": 0.0, "population": 0.0}
+    wa_inadm = {"optical": 0.0, "intersite": 0.0}
+    n_inadm = 0
+    by_dmax = {}
     nan, nskip = 0, {}
     for inf in infos:
         if inf.get("sec") != "dyn":
@@ -481,11 +506,21 @@ def run(run):
             nan += 1
             for g in wa:
                 a = inf["amp"][g] if inf["amp"][g] > 0 else 1.0
-                wa[g] = max(wa[g], inf["errs"][g][-1] / a)
+                if inf["admissible"][g]:
+                    wa[g] = max(wa[g], inf["errs"][g][-1] / a)
+                    if inf["amp"][g] > 0:
+                        k = "%s@Dmax=%d" % (g, inf["dmax"])
+                        by_dmax[k] = max(by_dmax.get(k, 0.0), inf["errs"][g][-1] / a)
+                else:
+                    wa_inadm[g] = max(wa_inadm[g], inf["errs"][g][-1] / a)
+                    n_inadm += 1
         if inf.get("skipped"):
             nskip[inf["skipped"]] = nskip.get(inf["skipped"], 0) + 1
     run.note(worst_deviation={"trace": w["trace"], "hermiticity": w["herm"],
                               "closed_system_abs": w["closed"],
                               "closed_system_fraction_of_bound": w["closed_ratio"],
-                              "analytic_rel_error_at_Dmax": wa},
-             analytic_cases=nan, analytic_skipped=nskip)
+                              "analytic_rel_error_at_Dmax": wa,
+                              "analytic_rel_error_at_Dmax_by_group": by_dmax,
+                              "analytic_rel_error_at_Dmax_inadmissible_kappa": wa_inadm},
+             analytic_cases=nan, analytic_skipped=nskip,
+             analytic_final_level_not_applied_kappa_gt_max=n_inadm)
